@@ -2,10 +2,17 @@
    Pinned: the two single-stream ways of reading a VCD body - from a byte slice (stop position = last byte) and
    through a BufRead (stop position = absolute end of the file including the header) - produce the same blocks and
    time table for every input, because a stop position at or beyond the last byte can never fire the hand-over rule.
-   NOT proved: the BufReader refill logic (fill_buf / consume with arbitrary capacities), memory-mapped files and
-   the header entry points; those are decided by the correspondence run over buffer capacities 3..16 bytes, refill
-   alignments and all entry points (MANIFEST level_note). *)
-From WV Require Import Model.Base Model.Bits Model.WaveMem Model.VcdBody Proofs.BodyProofs Proofs.EntryProofs.
+   entry_points_all_agree adds the third way, the multi-threaded read of a byte slice (C03's read_values_mt_equals_st):
+   for a body written one token group per line with increasing time stamps, reader, single-threaded slice and
+   multi-threaded slice load the same time table and every bit-vector signal reports the same changes.
+   The header is read by one generic function from all entry points (its model: C09's read_header_mdecls).
+   MODELLED, not verified: that std's `Bytes` adaptor over a BufRead (whatever the buffer capacity and refill alignment)
+   and a memory-mapped file deliver the bytes of the file in order - both are the standard library's / memmap2's, wellen
+   has no refill logic of its own; the dispatch glue of the entry points (simple::read*, viewers::read_header*,
+   read_body).  Those are decided by the correspondence run over buffer capacities 3..16 bytes, refill alignments and all
+   entry points (MANIFEST level_note). *)
+From WV Require Import Model.Base Model.Bits Model.WaveMem Model.VcdBody Spec.TimeSpec Spec.StoreSpec Proofs.TimeTableProofs Proofs.StoreProofs Proofs.EncoderProofs Proofs.BodyProofs Proofs.EntryProofs Proofs.HandoverProofs Proofs.RealStringEnc Proofs.VcdStreamProofs Proofs.TokenProofs Proofs.TilingProofs Proofs.MtProofs Proofs.EntryAllProofs.
+From Coq Require Import Sorted.
 Open Scope N_scope.
 
 Check entry_points_agree :
@@ -18,5 +25,25 @@ Check parse_body_stop_irrelevant :
   forall debug input s1 s2, N.of_nat (length input) <= s1 + 1 -> N.of_nat (length input) <= s2 + 1 ->
   parse_body debug input s1 = parse_body debug input s2.
 
+Check entry_points_all_agree :
+  forall (parse_f64 : list byte -> option (list byte)) (lz_compress : list byte -> list byte)
+         (lz_decompress : list byte -> nat -> option (list byte)),
+  (forall d n, (length d <= n)%nat -> lz_decompress (lz_compress d) n = Some d) ->
+  forall cap, 1 <= cap -> cap <= 65536 ->
+  forall debug tpes lookup ls header_len max_threads min_chunk b_r t_r b_mt t_mt id bits,
+  Forall line_ok ls -> (1 <= bits)%nat -> nth_error tpes id = Some (EncBits bits) ->
+  read_values_reader parse_f64 lz_compress cap debug tpes lookup (body ls) header_len = Ok (b_r, t_r) ->
+  N.of_nat (length t_r) < 4294967296 ->
+  read_values_mt parse_f64 lz_compress cap debug tpes lookup (body ls) max_threads min_chunk = Ok (b_mt, t_mt) ->
+  N.of_nat (length t_mt) < 4294967296 ->
+  (forall ops, ops_of lookup true false (evs ls) = Some ops ->
+     StronglySorted N.lt (times_of ops) /\ N.of_nat (count_vcd id ops) * (10 + N.of_nat bits) < 4294967264) ->
+  read_values_st parse_f64 lz_compress cap debug tpes lookup (body ls) = Ok (b_r, t_r) /\
+  exists s_r s_mt,
+    load_signal lz_decompress b_r id (EncBits bits) = Ok s_r /\
+    load_signal lz_decompress b_mt id (EncBits bits) = Ok s_mt /\
+    observe_signal s_r = observe_signal s_mt /\ t_r = t_mt.
+
 Print Assumptions entry_points_agree.
+Print Assumptions entry_points_all_agree.
 Print Assumptions parse_body_stop_irrelevant.
